@@ -4,10 +4,11 @@ SPEC = {
     "translators": ["gen_snapshot", "gen_astarms"],
     "bins": ["c06"],
     "model_targets": ["Compiler/SnapshotCheck.vo"],
-    "proof_targets": ["Compiler/SnapshotProofs.vo", "Compiler/AccountingC06.vo"],
+    "proof_targets": ["Compiler/SnapshotProofs.vo", "Compiler/AccountingC06.vo", "Compiler/SuppressProofs.vo"],
     "assumptions": [
         "compiler fields are abstracted to vectors / pattern-id maps / counters / opaque histories; a failing rule performs an arbitrary sequence of the field mutations that occur syntactically in the fallible region of c_rule (found transitively by the translator)",
         "hand classification of the 40 Compiler fields (Restored / ToleratedJunk pools / Diagnostics / PerRuleScratch / Config) and of the two fields handed out as `&mut` that are append-only (re_code, symbol_table): checked for exhaustiveness by Coq, validated by K",
+        "warning suppressions: add_source is pinned to the shape `let ast = match src.as_str() { Ok => hook.., Err => return }` followed by statements whose exits are extracted; Warnings::add is modelled by hand (Compiler/Suppress.v) and validated by K (warnings() about the other sources equal with and without the failed source)",
         "pattern ids inserted into the id-related maps after the snapshot are fresh (>= snapshot.next_pattern_id): from the pending_patterns logic, validated by K",
     ],
     "trusted_base": ["Gen/SnapshotGen.v: Compiler fields, take_snapshot/restore_snapshot statements and the mutation sites of c_rule's fallible region, regenerated from lib/src/compiler/mod.rs",
@@ -16,7 +17,7 @@ SPEC = {
 
 RULE = ("[A.., bad, B..] vs [A.., B..]: 0-3 good rules before, 0-2 after (text/hex/regexp patterns, anchored and counted uses, patterns shared verbatim), "
         "bad fails at syntax / duplicate rule / unknown identifier / type / modifier / unused pattern / regexp-matches-empty / invalid regexp / slow-pattern-as-error "
-        "after 0-3 registered patterns of the same rule; compared: digest per compiler field, scan dumps (normal and fast-scan) on 3 buffers, errors(), build(); "
+        "after 0-3 registered patterns of the same rule; compared: digest per compiler field, scan dumps (normal and fast-scan) on 3 buffers, errors(), build(), the warnings() about every other source (origins attribute them), acceptance of a probe source that names loop variables of the failed rule; half of the bad sources carry `// suppress:` comments over a long line, some fail two or three scopes deep; "
         "each case in a child process (a crash of the scanner kills only the child). Non-trivial: the bad source was rejected; distinct by (position, kind, bad text).")
 
 
@@ -30,6 +31,7 @@ def classify(case):
     elif not case.get("scans_equal", True): tags.append("scans-differ")
     if not case.get("recorded", True): tags.append("error-not-recorded")
     if not case.get("others_same", True): tags.append("other-source-affected")
+    if not case.get("warnings_same", True): tags.append("warnings-of-other-sources-differ")
     if not case.get("build_ok", True): tags.append("build-panics")
     return "C06:" + ",".join(tags or ["?"])
 
